@@ -115,6 +115,9 @@ def composites():
     out.append(grammar("c_uclass", [
         rule("S", act(seq(label("x", plus(cls(classes=["L"]))), label("y", star(cls(classes=["Nd"], chars="-")))), b_rec("s"))),
     ], alphabet_extra="1-"))
+    out.append(grammar("c_uclass2", [
+        rule("S", act(seq(label("x", plus(cls(chars="_-", classes=["L"]))), label("y", star(cls(chars="+-", classes=["Nd"], i=True)))), b_rec("s"))),
+    ], alphabet_extra="1_-+"))
     out.append(grammar("c_multirule", [
         rule("S", act(seq(label("a", ref("A")), label("b", opt(ref("B"))), label("e", ref("A"))), b_rec("s"))),
         rule("A", choice(act(lit("ab"), b_text()), act(lit("a"), b_const("A2")))),
@@ -178,6 +181,11 @@ def class_catalogue():
         ("p_Lu", "", [], ["Lu"]),
         ("p_Nd", "", [], ["Nd"]),
         ("p_Latin", "", [], ["Latin"]),
+        ("r_del", "", [("\x7f", "\x9f")], []),
+        ("r_ctl", "", [("\x00", "\x1f"), ("\x7f", "\xff")], []),
+        ("r_tilde", "", [("~", "\x80")], []),
+        ("del", "\x7f\x00", [], []),
+        ("r_7e7f", "", [("~", "\x7f")], []),
         ("mix1", "_", [("a", "f"), ("0", "9")], []),
         ("mix2", "x", [("A", "F")], ["Nd"]),
     ]
@@ -458,6 +466,11 @@ def opt_catalogue():
     g("actinl", [rule("S", top(seq(label("p", ref("A")), label("q", ref("A"))))), rule("A", act(seq(label("v", cls(ranges=[("a", "b")])), label("w", opt(lit("c")))), b_rec("A")))])
     g("lblinl", [rule("S", act(seq(label("p", ref("A")), label("q", opt(ref("B")))), b_rec("s"))), rule("A", seq(label("v", lit("a")), label("w", opt(lit("b"))))), rule("B", act(label("u", lit("c")), b_rec("B")))])
     g("starinl", [rule("S", top(seq(star(ref("A")), plus(ref("B"))))), rule("A", seq(lit("a"), lit("b"))), rule("B", choice(lit("a"), lit("c")))])
+    # a leaf rule holding a class, referenced from several choices with different mergeable neighbours
+    g("sharedcls", [rule("S", act(seq(label("first", ref("IdStart")), label("rest", star(ref("IdPart")))), b_rec("s"))),
+                    rule("IdStart", choice(ref("Letter"), lit("_"))), rule("IdPart", choice(ref("Letter"), lit("$"))), rule("Letter", cls(ranges=[("a", "c")]))])
+    g("sharedcls2", [rule("S", top(seq(choice(ref("L"), lit("x")), choice(lit("y"), ref("L")), opt(choice(ref("L"), cls(chars="z")))))), rule("L", cls(chars="abc"))])
+    g("sharedlit", [rule("S", top(seq(choice(seq(ref("K"), lit("1")), seq(ref("K"), lit("2"))), ref("K")))), rule("K", seq(lit("a"), lit("b")))])
     # alternate entrypoints
     g("entry", [rule("S", top(seq(ref("A"), ref("B")))), rule("A", act(choice(lit("a"), lit("b")), b_rec("A"))), rule("B", act(seq(lit("c"), opt(ref("A"))), b_rec("B")))], entries=["", "A", "B"])
     g("unused", [rule("S", top(ref("A"))), rule("A", lit("a")), rule("U", act(lit("u"), b_rec("U")))], entries=["", "U"])
@@ -515,4 +528,8 @@ def cyclic_catalogue():
     g("codepred", [top(), rule("A", choice(seq(andcode(p_const(True)), ref("A"), lit("a")), lit("a")))])
     g("action", [top(), rule("A", choice(seq(act(ref("A"), b_rec("in")), lit("a")), lit("a")))])
     g("andseq", [top(), rule("A", seq(and_(seq(ref("N"), ref("A"))), lit("a"))), rule("N", opt(lit("n")))])
+    g("choicepred", [top(), rule("A", choice(not_(lit("x")), seq(ref("A"), lit("y"))))])
+    g("choicecodepred", [top(), rule("A", choice(andcode(p_const(False)), seq(ref("A"), lit("y")), lit("a")))])
+    g("choicepredindirect", [top(), rule("A", choice(not_(any_()), ref("P"), lit("a"))), rule("P", seq(ref("A"), lit(":"), ref("A")))])
+    g("choicepredn", [top(), rule("A", choice(not_(lit("x")), seq(ref("N"), ref("A"), lit("y")))), rule("N", opt(lit("n")))])
     return out
